@@ -95,7 +95,44 @@ func c18RefusedKind(rt reflect.Type) bool {
 	return false
 }
 
+// runC18IrregularRegressions: witnesses of two defects found by these probes and
+// repaired in /repo (e62e542, 313eb3f): the decode must be refused with an error.
+func runC18IrregularRegressions(ctx *Ctx) {
+	type reg struct {
+		v    cty.Value
+		rt   reflect.Type
+		what string
+	}
+	ab := cty.ObjectVal(map[string]cty.Value{"a": cty.NumberIntVal(1), "b": cty.NumberIntVal(2)})
+	regs := []reg{
+		{ab, c18T(new(c18Unexp)), "an object can not be decoded into a struct with an unexported cty-tagged field"},
+		{ab, c18T(new(*c18Unexp)), "an object can not be decoded into a struct with an unexported cty-tagged field"},
+		{cty.MapVal(map[string]cty.Value{"a": cty.StringVal("x")}), c18T(new(map[int]string)), "a map can not be decoded into a Go map whose key type is not string"},
+		{cty.MapVal(map[string]cty.Value{"a": cty.NumberIntVal(1)}), c18T(new(map[bool]int)), "a map can not be decoded into a Go map whose key type is not string"},
+		{ab, c18T(new(map[int]int)), "an object can not be decoded into a Go map whose key type is not string"},
+		// 313eb3f checks the key kind before the null shortcut
+		{cty.NullVal(cty.Map(cty.String)), c18T(new(map[int]string)), "a null map can not be decoded into a Go map whose key type is not string"},
+		{cty.MapValEmpty(cty.String), c18T(new(map[bool]int)), "an empty map can not be decoded into a Go map whose key type is not string"},
+	}
+	for _, g := range regs {
+		target := reflect.New(g.rt)
+		var err error
+		pn, why := try(func() { err = gocty.FromCtyValue(g.v, target.Interface()) })
+		ctx.Eval("irregular regression "+encVal(g.v)+" "+g.rt.String(), true)
+		ctx.Tag("regression")
+		if pn || err == nil {
+			out := "ok"
+			if pn {
+				out = "panic: " + why
+			}
+			ctx.Fail(Failure{Site: "regression", Sig: "repaired defect is back: " + g.what, What: g.what, Input: encVal(g.v) + " " + g.rt.String(),
+				GoLit: fmt.Sprintf("var t %s; err := gocty.FromCtyValue(%#v, &t)", g.rt, g.v), Outcome: out})
+		}
+	}
+}
+
 func runC18Irregular(ctx *Ctx) {
+	runC18IrregularRegressions(ctx)
 	for _, ir := range c18Irregulars {
 		rt := ir.rt
 		name := rt.String()
